@@ -975,7 +975,9 @@ impl<T: Transport, Env: UtpEnvironment> VirtualSocket<T, Env> {
                     self.maybe_send_fin(cx)?;
                     log_if_changed!(Level::DEBUG, "state", self, |s| s.state, |s| s.state =
                         VirtualSocketState::Closed);
-                    return Ok(());
+                    // The ACKs processed above still need their bookkeeping below (the TX buffer
+                    // must be truncated in step with the segments).
+                    break;
                 }
             };
             result.update(&self.process_incoming_message(cx, msg)?);
